@@ -220,10 +220,22 @@ CHECKS = {
          "0/1 truth table — the operator overloads are arithmetic expressions (C02.expr_dense) that coincide with the connectives on "
          "0/1 values; the symbol tensors are proved to be the coordinate projections; thresholds of the predicates are extracted from "
          "logic.py on every run and a count is ≤ thr<1 iff it is 0. Formula trees are tied to /repo core-for-core through the C02 model; "
-         "all 276 Boolean functions of ≤3 variables, helpers, predicates, relevant/irrelevant symbols, only() by exhaustive truth tables.",
-    note="Trusted: Lean kernel + standard axioms; harness glue; sampling for ≥4 variables. sqrt(2^(1/N)) of `^` enters as kernel answer "
-         "rho with rho^N = 2. Outside: float noise of un-rounded formulas against the absolute thresholds (two known findings), "
-         "intermediate round() (C04), helpers all/any/none/one (oracle only).",
+         "all 276 Boolean functions of ≤3 variables, helpers, predicates, relevant/irrelevant symbols, only() by exhaustive truth tables."
+         'EXTENSION: the helpers true/false/all/none/any/one/presence/absence are modelled exactly as logic.py builds them and '
+         'proved for every N and every `which` (negative positions of presence/absence wrap, out-of-range raises; all/none/any '
+         "ignore entries outside range(N); one(N, which) has the CODED meaning 'exactly one of all N variables is true and it is "
+         "listed'); sum_counts_models (the sum of a formula tensor is its number of satisfying assignments, also through "
+         'tn.sum); the predicates is_tautology / is_contradiction / is_satisfiable / implies / equiv modelled with the threshold '
+         'as a parameter and proved equivalent to the truth-table statements under the exact numeric conditions thr·thr < 1 '
+         '(norm tests) and 0 < thr ≤ 1 (sum test); relevant_symbols / irrelevant_symbols / only: relevant_iff (a variable is '
+         'reported iff two assignments differing only in it get different values), only_dense. All of them are compared with '
+         '/repo by a correspondence battery (c15_logic.py; the recorded round-off defect of relevant_symbols on formulas with ^ '
+         'is recognised — model = truth table ≠ library — and counted, not reported).',
+    note='Trusted: Lean kernel + standard axioms; harness glue; sampling for ≥4 variables. sqrt(2^(1/N)) of `^` enters as kernel '
+         'answer rho with rho^N = 2. The theorems are exact-arithmetic: float noise of un-rounded formulas against the absolute '
+         'thresholds 1e-10 / 1e-6 is outside them (known findings for relevant_symbols with ^; is_tautology misclassifies from '
+         'about N = 12 variables in float64, observed by the sub-agent and outside the sizes the check generates); intermediate '
+         'round() is C04.',
     tech="Lean 4 proof (structural induction over formula trees via C02.expr_dense) + differential correspondence + exhaustive truth tables",
     ref="§3 C15"),
  "C16": dict(
